@@ -505,6 +505,82 @@ fn read_vector(db: &Db, case: &Case, book: &hist::ValueBook) -> Vec<u64> {
 	v
 }
 
+/// read_vector in a forked child with a time limit and a memory limit; None when the child did not deliver
+fn read_vector_forked(db: &Db, case: &Case, book: &hist::ValueBook, secs: u64) -> Option<Vec<u64>> {
+	let want: usize = case.keys.iter().map(|k| k.len()).sum();
+	unsafe {
+		let mut fds = [0i32; 2];
+		if libc::pipe(fds.as_mut_ptr()) != 0 {
+			return Some(read_vector(db, case, book))
+		}
+		let pid = libc::fork();
+		if pid < 0 {
+			libc::close(fds[0]);
+			libc::close(fds[1]);
+			return Some(read_vector(db, case, book))
+		}
+		if pid == 0 {
+			libc::close(fds[0]);
+			let lim = libc::rlimit { rlim_cur: 3 << 30, rlim_max: 3 << 30 };
+			libc::setrlimit(libc::RLIMIT_DATA, &lim);
+			libc::alarm(secs as u32 + 5);
+			let r = std::panic::catch_unwind(std::panic::AssertUnwindSafe(|| read_vector(db, case, book)));
+			if let Ok(v) = r {
+				let bytes: Vec<u8> = v.iter().flat_map(|x| x.to_le_bytes()).collect();
+				let mut off = 0;
+				while off < bytes.len() {
+					let n = libc::write(fds[1], bytes[off..].as_ptr() as *const libc::c_void, bytes.len() - off);
+					if n <= 0 {
+						break
+					}
+					off += n as usize;
+				}
+				libc::_exit(0);
+			}
+			libc::_exit(7);
+		}
+		libc::close(fds[1]);
+		let deadline = std::time::Instant::now() + std::time::Duration::from_secs(secs);
+		let mut buf: Vec<u8> = Vec::new();
+		let mut eof = false;
+		loop {
+			let left = deadline.saturating_duration_since(std::time::Instant::now()).as_millis() as i32;
+			if left <= 0 {
+				break
+			}
+			let mut pfd = libc::pollfd { fd: fds[0], events: libc::POLLIN, revents: 0 };
+			let r = libc::poll(&mut pfd, 1, left);
+			if r < 0 {
+				if std::io::Error::last_os_error().kind() == std::io::ErrorKind::Interrupted {
+					continue
+				}
+				break
+			}
+			if r == 0 {
+				break
+			}
+			let mut tmp = [0u8; 65536];
+			let n = libc::read(fds[0], tmp.as_mut_ptr() as *mut libc::c_void, tmp.len());
+			if n <= 0 {
+				eof = true;
+				break
+			}
+			buf.extend_from_slice(&tmp[..n as usize]);
+		}
+		libc::close(fds[0]);
+		if !eof {
+			libc::kill(pid, libc::SIGKILL);
+		}
+		let mut st = 0i32;
+		libc::waitpid(pid, &mut st, 0);
+		if eof && libc::WIFEXITED(st) && libc::WEXITSTATUS(st) == 0 && buf.len() == want * 8 {
+			Some(buf.chunks(8).map(|c| u64::from_le_bytes(c.try_into().unwrap())).collect())
+		} else {
+			None
+		}
+	}
+}
+
 /// (C13) damage the log files of an image in one of several ways; returns a description
 fn damage_logs(dir: &Path, rng: &mut Rng) -> String {
 	let mut logs: Vec<PathBuf> = std::fs::read_dir(dir).map(|rd| rd.flatten().map(|e| e.path()).filter(|p| p.file_name().map_or(false, |n| n.to_string_lossy().starts_with("log"))).collect()).unwrap_or_default();
@@ -589,7 +665,6 @@ pub fn main(args: &[String], kind: &str) -> i32 {
 	let count: u64 = args[1].parse().unwrap();
 	let mut out = Out::new(&args[2]);
 	let root = PathBuf::from(&args[2]);
-	let mut rng = Rng::new(seed ^ 0xC4A5);
 	let mut oracle = String::new();
 	let mut dist: BTreeMap<String, u64> = BTreeMap::new();
 	let mut nontrivial = 0u64;
@@ -598,6 +673,10 @@ pub fn main(args: &[String], kind: &str) -> i32 {
 	interpose::set_sink(Some(Box::new(on_sys)));
 	interpose::set_after_msync(Some(Box::new(interleave_enact)));
 	for hi in 0..count {
+		let mut rng = crate::util::case_rng(seed ^ 0xC4A5, hi);
+		if crate::util::skip_case(hi) {
+			continue
+		}
 		// a history of the usual kind, without clean reopen steps before the end so that the pipeline gets deep
 		// a quarter of the C02 / C12 histories grow the index (66-90 keys sharing an index page, reindex steps)
 		let growth = (kind == "c02" || kind == "c12") && rng.chance(1, 4);
@@ -952,40 +1031,16 @@ pub fn main(args: &[String], kind: &str) -> i32 {
 				if tr.damage && !expected_set.contains(&applied) {
 					return Err(format!("replay-applied-wrong-records the replay applied records {applied:?}, the log bytes justify exactly {expected:?}"))
 				}
-				// under F18 the tables can hold a cyclic value chain and a read of it never returns: read on a
-				// helper thread, which is abandoned (with its handle of the database) if it does not come back
-				let (db, got) = if f18 {
-					let shared = std::sync::Arc::new(db);
-					let theirs = shared.clone();
-					let keys = case.keys.clone();
-					let (tx, rx) = std::sync::mpsc::channel();
-					std::thread::spawn(move || {
-						let mut raw = Vec::new();
-						for (c, ks) in keys.iter().enumerate() {
-							for k in ks {
-								raw.push(theirs.get(c as u8, k).map_err(|_| ()));
-							}
-						}
-						drop(theirs);
-						let _ = tx.send(raw);
-					});
-					match rx.recv_timeout(std::time::Duration::from_secs(20)) {
-						Ok(raw) => {
-							let got: Vec<u64> = raw.into_iter().map(|r| match r { Ok(Some(x)) => book.token_of(&x), Ok(None) => 0, Err(_) => 0xeeee_eeee }).collect();
-							let mut shared = shared;
-							let db = loop {
-								match std::sync::Arc::try_unwrap(shared) {
-									Ok(db) => break db,
-									Err(s) => { shared = s; std::thread::yield_now(); },
-								}
-							};
-							(db, got)
-						},
-						Err(_) => return Err("damaged-log-mixes-states a read of the recovered state did not return within 20 s (a value chain that runs in a circle)".into()),
+				// under F18 the tables can hold a value chain that runs in a circle: a read of it never returns and
+				// allocates without bound. The vector is then read by a forked copy of this process, which is
+				// killed when it does not answer.
+				let got = if f18 {
+					match read_vector_forked(&db, &case, &book, 10) {
+						Some(v) => v,
+						None => return Err("damaged-log-mixes-states a read of the recovered state did not return within 10 s (a value chain that runs in a circle)".into()),
 					}
 				} else {
-					let got = read_vector(&db, &case, &book);
-					(db, got)
+					read_vector(&db, &case, &book)
 				};
 				let mut matched = None;
 				for m in lo..=std::cmp::min(hi, ncommits) {
